@@ -443,3 +443,96 @@ def skip_passthrough(F):
     if n < 2:
         raise CheckError("expected the skip argument of both public iterator constructors, found %d" % n)
     return r
+
+
+def location_addressing(F):
+    """R-LOC-ADDRESS: the `*_at(loc, ..)` methods of the iterators and the function modifier act on the place their `loc`
+    argument names, not on the place the cursor happens to be at: every index into `modules` / `functions.get_mut(..)` /
+    `instructions[..]` in such a method is a component of the destructured `loc` (mod_idx / func_idx / instr_idx)."""
+    from vlib.facts import binding_site
+    r = RuleResult("R-LOC-ADDRESS",
+                   "in every iterator / modifier method that takes a `loc: Location`, the module, function and instruction that are touched are addressed by the fields of that `loc` (never by the cursor)")
+    n = 0
+    for fn in F.fns:
+        if fn.get("body") is None or not (fn.get("self_adt") or "").endswith(("ComponentIterator", "ModuleIterator", "FunctionModifier")):
+            continue
+        locs = [pm["pat"]["hid"] for pm in fn.get("params", []) if pm["pat"].get("k") == "Binding" and (pm.get("ty") or "").endswith("Location")]
+        if not locs:
+            continue
+        # bindings obtained by destructuring the loc parameter
+        from_loc = {}
+        for x in walk(fn["body"]):
+            pat = scr = None
+            if x.get("k") == "LetExpr":
+                pat, scr = x["pat"], x["init"]
+            elif x.get("k") == "Let" and "init" in x:
+                pat, scr = x["pat"], x["init"]
+            elif x.get("k") == "Match":
+                for arm in x["arms"]:
+                    s_ = peel(x["scrut"])
+                    if s_.get("k") == "Path" and s_.get("res", {}).get("hid") in locs:
+                        for sub in walk(arm["pat"]):
+                            if sub.get("k") == "Struct" and isinstance(sub.get("fields"), list):
+                                for fname, b in sub["fields"]:
+                                    if b.get("k") == "Binding":
+                                        from_loc[b["hid"]] = fname
+                continue
+            if pat is not None and peel(scr).get("k") == "Path" and peel(scr).get("res", {}).get("hid") in locs:
+                for sub in walk(pat):
+                    if sub.get("k") == "Struct" and isinstance(sub.get("fields"), list):
+                        for fname, b in sub["fields"]:
+                            if b.get("k") == "Binding":
+                                from_loc[b["hid"]] = fname
+        if not from_loc:
+            continue
+        touched = False
+
+        def leaf(e):
+            e = peel(e)
+            while isinstance(e, dict) and (e.get("k") == "Cast" or (e.get("k") == "MethodCall" and e["method"] in ("clone", "into") and not e.get("args"))):
+                e = peel(e.get("a") or e.get("recv"))
+            return e
+        for x in walk(fn["body"]):
+            want = idx = None
+            if x.get("k") == "Index" and (place_path(x["base"]) or "").endswith(".modules"):
+                want, idx = "mod_idx", x["index"]
+            elif x.get("k") == "Index" and (place_path(x["base"]) or "").endswith(".instructions"):
+                want, idx = "instr_idx", x["index"]
+            elif x.get("k") == "MethodCall" and x["method"] in ("get_mut", "get") and (place_path(x["recv"]) or "").endswith(".functions") and x.get("args"):
+                want, idx = "func_idx", x["args"][0]
+            if want is None:
+                continue
+            touched = True
+            n += 1
+            l_ = leaf(idx)
+            src = from_loc.get(l_.get("res", {}).get("hid")) if l_.get("k") == "Path" else None
+            ok = src == want
+            if not ok and src is None:
+                # derived from the location in some other way (a helper that destructures it, a let-else, a tuple): the
+                # value still comes from `loc`; which component it is is not decided here
+                def mentions_loc(e, depth=0):
+                    if depth > 3 or not isinstance(e, dict):
+                        return False
+                    for y in walk(e):
+                        if y.get("k") == "Path" and y.get("res", {}).get("hid") in locs:
+                            return True
+                        if y.get("k") == "Path" and y.get("res", {}).get("r") == "local" and y["res"].get("hid") in from_loc:
+                            return True
+                    for y in walk(e):
+                        if y.get("k") == "Path" and y.get("res", {}).get("r") == "local":
+                            _p, scr_, _k = binding_site(fn["body"], y["res"]["hid"])
+                            if scr_ is not None and scr_ is not e and mentions_loc(scr_, depth + 1):
+                                return True
+                    return False
+                if mentions_loc(idx):
+                    r.undecided("%s: the %s index derives from `loc` through a helper or a tuple; which component it is was not decided" % (fn["path"], want))
+                    continue
+            r.ob(ok, {"fn": fn["path"], "addresses": want, "by": src or "something else"})
+            if not ok:
+                r.violate("%s | %s" % (fn["path"], want), F.loc(fn, x),
+                          "%s takes a location but addresses the %s by %s instead of by the location's %s: an edit aimed at another place lands where the cursor is" % (
+                              fn["name"], {"mod_idx": "module", "func_idx": "function", "instr_idx": "instruction"}[want], "`%s` of the location" % src if src else "a value not taken from the location", want))
+        if touched:
+            r.analysed.append(fn["path"])
+    r.count("addressed_sites", n)
+    return r
